@@ -75,6 +75,9 @@ def gen_scenarios(spec, rng, n):
             client = "rest"
         from ..rng import deep
         nact = 1 if client != "async" else rng.choice([1, 2, 4, 6, 8] if deep() else [1, 2, 3, 4])
+        threads = client != "async" and rng.random() < 0.2     # REAL caller threads sharing one sync/REST client
+        if threads:
+            nact = rng.choice([2, 2, 3])
         actors = [{"start": 0.0, "ops": []} for _ in range(nact)]
         nops = rng.randint(1, 4) if nact == 1 else nact + rng.randint(0, 2)
         for j in range(nops):
@@ -94,6 +97,9 @@ def gen_scenarios(spec, rng, n):
                 a["ops"] = new
         sc = {"client": client, "actors": [a for a in actors if a["ops"]], "jitter_default": 0.0,
               "entropy_seed": rng.randrange(2**32)}
+        if threads and len(sc["actors"]) > 1:
+            sc["threads"] = True
+            sc["sched_seed"] = rng.randrange(2 ** 32)
         if len(sc["actors"]) > 1 and rng.random() < 0.4:
             sc["clients"] = "per_actor"        # several clients in one process: ids must still be fresh
         if client == "async" and len(sc["actors"]) > 1 and rng.random() < 0.2:
